@@ -81,6 +81,14 @@ func (w *world) secrets() []secret {
 	for i := range w.c.Hosts {
 		if a := w.c.account(i); a != nil {
 			out = append(out, accountSecrets(a, i, false)...)
+			if w.c.staleCfg(i) {
+				for _, s := range accountSecrets(w.c.oldAccount(i), i, false) {
+					if s.Kind != "user" {
+						s.Kind = "old-" + s.Kind
+						out = append(out, s)
+					}
+				}
+			}
 		}
 	}
 	for n, d := range w.c.Decoys {
@@ -840,6 +848,9 @@ func caseClasses(c *Case, res *runResult, st *stats) []string {
 		if h.Kind == "registry" {
 			if h.Cfg == "" {
 				add("cfg:registry-without-configuration")
+			}
+			if c.staleCfg(i) {
+				add("config:older-credentials-in-host-entry-overridden-by-docker-config")
 			}
 			if h.AlsoDocker {
 				add("cfg:host-and-docker-file-same-login")
